@@ -1046,7 +1046,7 @@ class Server:
         base_path = connection.user.base_path
         real_path = base_path / str(resolved_virtual_path.relative_to("/"))
         # replace with `is_relative_to` check after 3.9+ requirements lands
-        if not real_path.is_relative_to(base_path):
+        if not real_path.is_relative_to(base_path) or ".." in real_path.relative_to(base_path).parts:
             real_path = base_path
             resolved_virtual_path = pathlib.PurePosixPath("/")
         return real_path, resolved_virtual_path
